@@ -73,6 +73,47 @@ def signal(rng, kind=None, max_len=1000):
     return {'sig': sig, 'fs': fs, 'f_range': f_range, 'kind': kind, 'period': period}
 
 
+BANDS = {'offlo': (0.35, 0.7), 'offhi': (1.4, 2.8), 'narrow': (0.9, 1.1), 'wideband': (0.5, 2.0)}
+
+
+def vary(rng, s, f32=False):
+    """Widen one generated signal in place of the fixed (0.7 f0, 1.4 f0) band / integer fs / float64 samples:
+    ~20 % a band that misses the rhythm (offlo / offhi), a narrow or a wide band; ~15 % a non-integer or float-typed
+    fs; ~10 % integer-valued samples to be passed as int64; with f32 ~6 % float32 samples.  `sig` stays a float64
+    array holding the exact value of every sample (that is what the model sees); `dtype` says how it is passed.
+    Returns a new dict (keys of `signal` plus dtype, band, nsec_unit = one period of the low cut-off in seconds)."""
+    s = dict(s)
+    s['band'], s['dtype'] = None, None
+    s['nsec_unit'] = s['period'] / s['fs'] / 0.7
+    f0 = s['fs'] / s['period']
+    if rng.random() < 0.2:
+        s['band'] = rng.choice(sorted(BANDS))
+        lo, hi = BANDS[s['band']]
+        s['f_range'] = (round(lo * f0, 6), round(hi * f0, 6))
+        s['nsec_unit'] = 1.0 / s['f_range'][0]
+    if rng.random() < 0.15:
+        s['fs'] = rng.choice([s['fs'] + 0.5, float(s['fs']), round(s['fs'] * 1.003, 3)])
+    r = rng.random()
+    m = float(np.max(np.abs(s['sig']))) if len(s['sig']) else 0.0
+    if r < 0.10 and m > 0 and math.isfinite(m):
+        k = rng.choice([4, 10, 1000])
+        s['sig'] = np.round(s['sig'] / m * k).astype(float)
+        s['dtype'] = 'int64'
+    elif f32 and r < 0.16:
+        s['sig'] = s['sig'].astype(np.float32).astype(float)
+        s['dtype'] = 'float32'
+    return s
+
+
+def typed(sig, dtype):
+    """The array actually handed to the implementation for a case with the given `dtype` tag."""
+    if dtype == 'int64':
+        return np.asarray(sig).astype(np.int64)
+    if dtype == 'float32':
+        return np.asarray(sig).astype(np.float32)
+    return sig
+
+
 def find_extrema_kwargs(rng, n, period):
     """A documented find_extrema_kwargs value (or None) and its filter settings."""
     r = rng.random()
